@@ -192,9 +192,10 @@ def finite_reference(schema):
     tuples): the reference is the list of candidates that python jsonschema validates — instance semantics, literally"""
     import itertools
     import jsonschema
-    cands = list(FIN_ATOMS) + [[]]
+    pool = list(FIN_ATOMS) + [False]     # {"type": "boolean"} leaves admit false as well
+    cands = list(pool) + [[]]
     for n in (1, 2, 3):
-        cands += [list(t) for t in itertools.product(FIN_ATOMS, repeat=n)]
+        cands += [list(t) for t in itertools.product(pool, repeat=n)]
 
     def collect(s):
         if isinstance(s, dict):
@@ -280,6 +281,13 @@ def gen_schema(rng, depth=0, defs=None):
                     s["minProperties"] = rng.randint(0, s["maxProperties"])
             else:
                 s["maxProperties"] = rng.randint(max(nreq, 0), max(nreq, nprops))
+        elif s["additionalProperties"] is not False and props and rng.random() < 0.3:
+            # unsatisfiable optional properties: the key is forbidden altogether, also as an additional one
+            opt = [k for k in keys if k not in req]
+            if rng.random() < 0.5:
+                opt, s["required"] = list(keys), []
+            for k in opt:
+                props[k] = False
         if not props:
             del s["properties"]
             del s["required"]
@@ -362,6 +370,9 @@ def gen_case(rng):
 
 
 HAND = [
+    {"type": "object", "properties": {"a": False}, "additionalProperties": {"type": "null"}},
+    {"type": "object", "properties": {"a": False, "b": False}, "additionalProperties": {"type": "boolean"}, "maxProperties": 2},
+    {"type": "object", "properties": {"a": False, "b": {"const": 1}}, "required": ["b"], "additionalProperties": {"type": "null"}},
     {"enum": [[], [1, 7], ["a"]], "type": "array", "x-verif-finite": True},
     {"const": [1, 7, -1], "type": "array", "items": {"enum": [1, 7, -1]}, "x-verif-finite": True},
     {"allOf": [{"type": "array", "prefixItems": [{"enum": [1, 7, -1]}, {"enum": ["x", "a"]}], "items": False}, {"type": "array", "prefixItems": [{"enum": [1, 7]}]}], "x-verif-finite": True},
